@@ -46,6 +46,7 @@ class Ctx:
         self.assumptions = []
         self.trusted = []
         self.extra = {}
+        self._tr_mark = len(getattr(P, "_translators", []))
 
     def inst(self, iid, desc, floor=None):
         i = Instance(iid, desc)
